@@ -29,10 +29,16 @@ TWitness == LET r == Events[l] IN
   /\ l <= Len(Events) /\ r.e = "Witness" /\ l' = l + 1
   /\ bad' = IF r.outcome = "SAME" THEN bad ELSE Append(bad, [cls |-> "static_init_witness", key |-> [compiler |-> r.compiler, opt |-> r.opt, type |-> "Length", num |-> "d", facility |-> r.outcome]])
   /\ UNCHANGED seen
+(* quantity level: every field a namespace-scope object computed before main() equals what main() computes *)
+TPreMain == LET r == Events[l] IN
+  /\ l <= Len(Events) /\ r.e = "PreMain" /\ l' = l + 1 /\ r.fields > 0
+  /\ bad' = IF r.differ = 0 \/ Len(bad) >= 600 THEN bad ELSE
+            Append(bad, [cls |-> "static_init_quantity", key |-> [compiler |-> r.compiler, opt |-> r.opt, type |-> r.type, num |-> r.num, facility |-> r.detail]])
+  /\ seen' = seen \cup {<<r.compiler, r.opt, "quantity">>}
 TFinish == /\ l = Len(Events) + 1 /\ l' = l + 1
            /\ JsonSerialize(IOEnv.OUT, [bad |-> bad, combos |-> Cardinality(seen)])
            /\ UNCHANGED <<bad, seen>>
-Next == TProbe \/ TWitness \/ TFinish
+Next == TProbe \/ TWitness \/ TPreMain \/ TFinish
 Spec == Init /\ [][Next]_vars
 Accepted == TLCGet("stats").diameter - 2 = Len(Events)
 =============================================================================
